@@ -217,6 +217,10 @@ def cnv_DrawNameRef(attribute, arg, element):
 
 # Must accept list of Style objects
 def cnv_NCNames(attribute, arg, element):
+    # A string is the list already, names separated by white space (this is
+    # what a loaded file provides); joining its characters would corrupt it
+    if (sys.version_info[0]==3 and isinstance(arg, str)) or (sys.version_info[0]==2 and type(arg) in types.StringTypes):
+        return arg
     return ' '.join(arg)
 
 def cnv_nonNegativeInteger(attribute, arg, element):
